@@ -27,10 +27,6 @@ func init() {
 	modes["valid"] = runValid
 }
 
-func tokNet(tok string) (*cidrsetNet, error) { return nil, nil }
-
-type cidrsetNet struct{}
-
 func mkSet(tok string, hb int) (*cidrset.MultiCIDRSet, error) {
 	if tok == "-" {
 		return nil, nil
